@@ -313,7 +313,9 @@ Section Term.
       - right. exists rs. rewrite Lext. apply in_or_app. auto. }
     rewrite E. destruct (p_batch p) as [|e0 b0] eqn:Eb.
     { cbn [fst]. unfold inv3. cbn [seqs log]. split; [intros k q G; apply (M1 k q G)|split; [exact M2|exact M3]]. }
-    rewrite <- Eb in Hmp, H2p |- *. set (kv' := kv_forward (kv_evict cfg (p_kv p) (p_batch p)) (p_batch p)).
+    rewrite <- Eb in Hmp, H2p |- *.
+    destruct (kv_full cfg (kv_evict cfg (p_kv p) (p_batch p)) (p_batch p)); [exact (conj T1 (conj T2 T3))|].
+    set (kv' := kv_forward (kv_evict cfg (p_kv p) (p_batch p)) (p_batch p)).
     destruct (post_all F cfg kv' (p_batch p) (p_slots p) (p_seqs p)) as [[[sl' qs'] ev]|] eqn:EP; [|exact (conj T1 (conj T2 T3))].
     cbn [fst]. destruct (post_all_spec F _ _ _ _ _ _ _ _ EP) as (L1 & L2 & Hfr & Hown & Hnone).
     destruct (post_all_events F cfg _ _ _ _ _ _ _ EP) as (Hevreq & Hevns & Hevown).
